@@ -21,6 +21,26 @@ CHECKS = {
    text="Reflection-filled projects (333 of 335 struct fields of the model types non-zero; the two unexported flags are exercised through WithSecretContent) and loaded projects go through seeded sequences of 1..4 derivations (all public With* operations, ForEachService with a mutating callback, both marshalling modes). After every step three monitors run: receiver deep-equal to the harness's own pre-call snapshot; every field the operation does not concern deep-equal between receiver and result; an address scan proving that no map, slice backing array or pointee is reachable from both the result and the receiver (or any earlier project of the sequence), followed by overwriting everything reachable from the result and re-comparing the receiver. Thorough tier runs under the race detector. Held on the sequences observed.",
    note="Snapshots use the harness's own deep copy. Extension payload values may be shared (the statement excepts them); zero-size allocations are ignored by the address scan.",
    technique="runtime monitoring: invariant monitors (snapshot equality, pointer-identity scan, mutation probe) over reflection-generated projects and operation sequences", design="4/C14"),
+ "C03": dict(category="exploration",
+   text="Constructive metamorphic pairs: the generator draws a semantic value, renders the specification's long form and every alternative spelling at each of 76 attribute positions (ports: complete product of the shape grammar; volumes: 11 source kinds x mode combinations; KEY=VALUE list|mapping, extra_hosts, durations, byte sizes, shell strings, secrets/configs/devices/build/env_file/depends_on/networks/extends/healthcheck/external/ulimits), loads each with the real loader and requires identical typed projects plus direct expectations computed from the drawn value; near-miss strings outside the grammars must be rejected without a project. Quick about 28k loads, thorough about 450k.",
+   note="The oracle is the generator, not a parser of mine; regions where the grammar is silent (single host port facing a container range, unknown volume mode flags, one-letter volume names) are generated for no-crash only.",
+   technique="runtime monitoring: constructive metamorphic comparison of typed projects + negative near-miss cases", design="4/C03"),
+ "C10": dict(category="fault_enumeration",
+   text="For each of 26 consistency rules of the statement, in every spelling variant and with the offending fragment in the main file, an override, an extended base or an included file, a benign model must load and a minimally rule-breaking twin must be rejected; every directed dependency graph on <=4 services (sampled at 5) must load iff acyclic; multi-fragment models fail iff some fragment breaks a rule. Every accepted project is judged by an independent invariant checker (internal/ref/consistency.go) whose sensitivity is self-tested per rule on the same run.",
+   note="Rules x placements x variants are enumerated, surroundings sampled; 5-node graphs sampled; 'consistent implies loads' is not claimed (a benign twin that fails makes its pair inconclusive).",
+   technique="runtime monitoring: independent invariant checker over loaded projects + minimal rule-violation injection with placement metamorphism", design="4/C10"),
+ "C15": dict(category="exploration",
+   text="Every selection operation of types.Project is executed on every project with <=3 services (profile sets x labelled DAGs with required/optional edges; exhaustive in thorough, a seed-chosen fifth of the 3-service projects in quick) under a full single-operation argument grid, and on sampled histories of <=5 operations on <=6 services including loader-produced receivers; a set-based reference model written from the statement judges every step relative to its receiver (partition, closure, profiles, dangling dependencies, pruned resources, frame) and every step is repeated 8-25 times with results required to be deeply equal.",
+   note="Points the statement leaves open (what a removed service still depends on, edges to already-disabled services, WithSelectedServices(nil)) are left free; cycles are not generated.",
+   technique="runtime monitoring: set-based reference model after every step + repeated-execution determinism monitor", design="4/C15"),
+ "C16": dict(category="exploration",
+   text="Seeded layer models (each of the 64 environment and 24 label layer combinations forced per key, values that name their layer, cross-references only where all source orders agree, short/long/optional env_file syntax, present and missing files) are loaded five ways (loader, loader with discard, unresolved load with and without normalisation followed by WithServicesEnvironmentResolved). Services[*].Environment, Labels and EnvFiles are compared with a small fold written from the statement; discard and non-discard projects must be equal apart from the file references; missing required files must fail, missing optional ones must load.",
+   note="Sampled models, not exhaustive over file contents. A valueless key unknown to the project environment and the order among reference sources are observed, not asserted; env-file syntax itself is C18's.",
+   technique="runtime monitoring: constructive layering reference model + metamorphic discard comparison", design="4/C16"),
+ "C18": dict(category="exploration",
+   text="Reference-model monitoring of the env-file parser. Constructive side: seeded files of 1-6 lines drawn as semantic values over the full line grammar (3 quoting styles, 8 reference forms, CRLF/BOM/no final newline), the map returned by UnmarshalWithLookup, ParseWithLookup and GetEnvFromFile must equal the fold of the drawn values and must-fail lines must yield an error. Exhaustive side: every string over a 14-symbol alphabet up to length 5 (quick) or 6 (thorough), plus prefixes and byte mutations of rendered files: never a panic, and outcomes compared wherever an independent backward reference decides them.",
+   note="Bounded and sampled. Trusts the two reference readings, which are cross-checked against each other at run time; ambiguous regions listed under Assumptions are observed for crashes only. One known finding (empty key accepted) is pinned by the existing suite.",
+   technique="runtime monitoring: constructive reference-model monitor + exhaustive bounded string enumeration + mutation fuzzing", design="4/C18"),
 }
 PLANNED = {}
 
